@@ -520,6 +520,12 @@ impl Property for C19 {
                 }
             }
         }
+        // svgdx's own text attributes are instructions, not SVG: none of them may be left on the text element either
+        for k in ["text", "text-lsp", "text-style", "text-loc", "text-offset", "text-dx", "text-dy", "text-dxy"] {
+            if t.has_attr(k) {
+                return Verdict::fail(format!("c19:text-element-keeps-svgdx-attribute:{k}"), ctx(), vec![], 1);
+            }
+        }
         if c.text_style && t.attr("style") != Some("font-style: italic; fill: \"navy\"") {
             return Verdict::fail("c19:text-style-not-applied", ctx(), vec![], 1);
         }
